@@ -265,9 +265,18 @@ impl Verify for Lpc {
 
 impl Verify for QuantizedParameters {
     fn verify(&self) -> Result<(), VerifyError> {
-        verify_range!("order", self.order(), ..=MAX_LPC_ORDER)?;
+        verify_range!("order", self.order(), 1..=MAX_LPC_ORDER)?;
         verify_range!("shift", self.shift(), MIN_LPC_SHIFT..=MAX_LPC_SHIFT)?;
-        verify_range!("precision", self.precision(), ..=MAX_LPC_PRECISION)?;
+        verify_range!("precision", self.precision(), 1..=MAX_LPC_PRECISION)?;
+        let coef_limit = 1i32 << (self.precision() - 1);
+        for idx in 0..self.order() {
+            let coef = i32::from(self.coefficient(idx).unwrap_or(0));
+            verify_true!(
+                "coefs[{idx}]",
+                -coef_limit <= coef && coef < coef_limit,
+                "must be representable in `precision` bits"
+            )?;
+        }
         Ok(())
     }
 }
